@@ -65,13 +65,19 @@ func NewRateLimiter(permitsPerSecond int64, options ...Option) *RateLimiter {
 
 // Acquire is the core algorithm of RateLimiter.
 func (l *RateLimiter) Acquire(ctx context.Context, tokens int) (err error) {
-	now := time.Now().UnixNano()
-	last := atomic.LoadInt64(&l.next)
-	permits := float64(now-last)/l.interval - float64(tokens)
-	if permits > l.maxPermits {
-		permits = l.maxPermits
+	var now, last int64
+	for {
+		now = time.Now().UnixNano()
+		last = atomic.LoadInt64(&l.next)
+		permits := float64(now-last)/l.interval - float64(tokens)
+		if permits > l.maxPermits {
+			permits = l.maxPermits
+		}
+		// concurrent callers must not overwrite each other's withdrawal
+		if atomic.CompareAndSwapInt64(&l.next, last, now-int64(permits*l.interval)) {
+			break
+		}
 	}
-	atomic.StoreInt64(&l.next, now-int64(permits*l.interval))
 	if last <= now {
 		return
 	}
